@@ -66,9 +66,10 @@ pub(crate) fn run() -> (Result<(), Error>, Option<StdinLogReader>) {
 
     let result = || -> Result<(), Error> {
         let mut server;
+        let parent;
         {
             let mut ptx = ProcessTransaction::new(&mut ps, TransactionBehavior::Immediate)?;
-            let f = if !ptx.state().env().target().as_os_str().is_empty()
+            let mut f = if !ptx.state().env().target().as_os_str().is_empty()
                 && !ptx.state().env().is_unlocked()
             {
                 let mut me = PathBuf::new();
@@ -88,13 +89,14 @@ pub(crate) fn run() -> (Result<(), Error>, Option<StdinLogReader>) {
                 None
             };
             server = JobServer::setup(0)?;
-            if let Some(mut f) = f {
+            if let Some(f) = f.as_mut() {
                 for t in targets.iter() {
                     f.add_dep(&mut ptx, DepMode::Modified, t)?;
                 }
                 f.save(&mut ptx)?;
                 ptx.commit()?;
             }
+            parent = f;
         }
 
         let build_result = server.block_on(builder::run(
@@ -103,6 +105,22 @@ pub(crate) fn run() -> (Result<(), Error>, Option<StdinLogReader>) {
             &targets,
             should_build,
         ));
+        if let (Err(_), Some(mut f)) = (&build_result, parent) {
+            // The script that called us may go on without what it asked for ("if
+            // redo-ifchange x; then ..."), and its target is then built from the failure.
+            // Such a target is out of date until it has been built with the dependency in
+            // place -- also when the dependency records a checksum and, once repaired,
+            // comes out with the checksum it had before.  Say so in the one way that
+            // does not depend on the dependency's own record: the target is rebuilt in
+            // the next run that needs it (and this edge goes away with that rebuild).
+            let mut ptx = ProcessTransaction::new(&mut ps, TransactionBehavior::Immediate)?;
+            f.add_dep(&mut ptx, DepMode::Modified, redo::always_filename())?;
+            let mut always = redo::File::from_name(&mut ptx, redo::always_filename(), true)?;
+            always.set_stamp(redo::Stamp::MISSING);
+            always.set_changed(ptx.state().env());
+            always.save(&mut ptx)?;
+            ptx.commit()?;
+        }
         // TODO(someday): In the original, there's a state.rollback call.
         // Unclear what this is trying to do.
         assert!(ps.is_flushed());
